@@ -7,7 +7,7 @@
    priority-sorted ANP list (C02_admin_order_irrelevant).  What is only sampled: the real map-iteration
    schedules of the Go runtime in code the mirror abstracts (dot output, exposure tables, Errors() order). *)
 From Coq Require Import List ZArith Bool String Permutation Sorting.Sorted.
-From NP Require Import IntervalSet ConnSet World Eval EvalProofs Build Connlist Diff Format SortGeneric FormatProofs OrderProofs DotProofs.
+From NP Require Import IntervalSet ConnSet World Eval EvalProofs Build Connlist Diff Format SortGeneric FormatProofs OrderProofs DotProofs XFormat XFormatProofs.
 Import ListNotations.
 
 (* sorting strings is a function of the multiset, and any correct sort.Strings computes it *)
@@ -45,6 +45,22 @@ Theorem C08_list_dot_order_independent es1 es2 ps1 ps2 :
   Permutation es1 es2 -> Permutation ps1 ps2 -> NoDup (map dp_str ps1) -> list_dot es1 ps1 = list_dot es2 ps2.
 Proof. exact (list_dot_perm_invariant es1 es2 ps1 ps2). Qed.
 Print Assumptions C08_list_dot_order_independent.
+
+(* the txt output of list --exposure (Model/XFormat.v, byte-exact against the implementation on every run of C09): a function of
+   the multiset of connections, of the set of exposed workloads and, per workload and direction, of the multiset of its entries *)
+Theorem C08_exposure_txt_order_independent es es' xps mid xps' :
+  Permutation es es' -> Permutation xps mid -> Forall2 xp_equiv mid xps' ->
+  list_exposure_txt es xps = list_exposure_txt es' xps'.
+Proof. exact (exposure_txt_order_independent es es' xps mid xps'). Qed.
+Print Assumptions C08_exposure_txt_order_independent.
+
+(* sortConnFields uses the unstable sort.Slice on (workload, other end) only: when no two lines of a section share both -
+   which the check evaluates on every implementation result - ANY correct sort by that key returns the model's order *)
+Theorem C08_unstable_key_sort_cannot_show (srt : list row -> list row) l :
+  key_nodupb l = true ->
+  Permutation (srt l) l -> StronglySorted (fun a b => key_leb a b = true) (srt l) -> srt l = rowsort l.
+Proof. exact (key_sort_is_rowsort srt l). Qed.
+Print Assumptions C08_unstable_key_sort_cannot_show.
 
 (* diff formats *)
 Theorem C08_diff_txt_order_independent d1 d2 : Permutation d1 d2 -> diff_txt d1 = diff_txt d2.
